@@ -17,7 +17,7 @@ func init() {
 		ID:         "C15",
 		Level:      "exploration",
 		Exhaustive: true,
-		Rule: "exhaustive: all valid commands with <=4 segments over segment alphabet {a,b,ab,''(non-final)} -> all ordered pairs (Covers vs segment-prefix model, Segments, reflexivity, antisymmetry, top) and all triples of a 90-command subset (transitivity); " +
+		Rule: "exhaustive: all valid commands with <=4 segments over segment alphabet {a,b,ab,''(non-final)} -> all ordered pairs (Covers vs segment-prefix model, Segments, reflexivity, antisymmetry, top), all ordered pairs of the 259 commands with <=3 segments over {é,è,ほ,ふ,a,éa} (UTF-8 encodings sharing lead bytes) and all triples of a 90-command subset (transitivity); " +
 			"parser: all strings of <=6 runes over {/,a,B,é,É,space} plus seeded random Unicode strings (alphabet where 'has a lower-case mapping' == 'is upper-case'); Join/New over non-empty slash-free segments. " +
 			"non-trivial = pair of different commands neither of which is '/', or a parser string containing '/' and another rune; distinct = the pair / the string.",
 		Assumptions: []string{
@@ -29,7 +29,7 @@ func init() {
 		MinEvals:    floor(100000, 500000),
 		MinDistinct: floor(50000, 100000),
 		RequiredCells: func(string) []string {
-			return []string{"rel/equal", "rel/parent", "rel/child", "rel/textual-prefix", "rel/sibling", "rel/top", "parse/accept", "parse/reject-noslash", "parse/reject-trailing", "parse/reject-upper", "join", "transitivity/chain"}
+			return []string{"rel/equal", "rel/parent", "rel/child", "rel/textual-prefix", "rel/sibling", "rel/top", "parse/accept", "parse/reject-noslash", "parse/reject-trailing", "parse/reject-upper", "join", "transitivity/chain", "non-ascii-pairs"}
 		},
 	})
 	addSelfTest("R-cmd vs in-tree TestCovers vectors", selfTestCmd)
@@ -140,6 +140,47 @@ func runC15(w *mon.W) {
 			}
 			if w.WantSample() && rel == "textual-prefix" {
 				w.Sample(map[string]any{"a": a, "b": b, "covers": got, "model": want, "relation": rel})
+			}
+		}
+	}
+	// a second small universe: non-ASCII segments whose UTF-8 encodings share their lead bytes
+	// (é/è = c3 a9 / c3 a8, ほ/ふ = e3 81 bb / e3 81 b5) next to ASCII ones, all ordered pairs
+	{
+		var u []string
+		segs := []string{"é", "è", "ほ", "ふ", "a", "éa"}
+		var rec2 func(cur []string, n int)
+		rec2 = func(cur []string, n int) {
+			if len(cur) == n {
+				u = append(u, ref.CmdFromSegments(cur))
+				return
+			}
+			for _, sg := range segs {
+				rec2(append(append([]string{}, cur...), sg), n)
+			}
+		}
+		for n := 0; n <= 3; n++ {
+			rec2(nil, n)
+		}
+		kk := 0
+		for _, a := range u {
+			for _, b := range u {
+				kk++
+				if !w.Mine(kk) {
+					continue
+				}
+				got := command.Command(a).Covers(command.Command(b))
+				want := ref.CmdCovers(a, b)
+				w.Eval(1)
+				w.Cover("non-ascii-pairs")
+				if a != b {
+					w.Distinct("pair", a, b)
+				}
+				if got != want {
+					w.Violate(fmt.Sprintf("covers/non-ascii/rel=%s/got=%v", cmdRel(a, b), got), fmt.Sprintf("Command(%q).Covers(%q) = %v, segment-prefix model says %v", a, b, got, want), map[string]any{"a": a, "b": b, "a_hex": mon.Hex([]byte(a)), "b_hex": mon.Hex([]byte(b))})
+				}
+				if got && a != b && command.Command(b).Covers(command.Command(a)) {
+					w.Violate("covers/not-antisymmetric", fmt.Sprintf("%q and %q cover each other", a, b), map[string]any{"a": a, "b": b})
+				}
 			}
 		}
 	}
